@@ -117,6 +117,16 @@ class C04(Prop):
               "tensor_product_expectation_value for one factor at the centre) = value(diagram of the single_site_operator_expectation_value shortcut) "
               "(C04_single_site_is_full_contraction), over any commutative semiring; end to end for the result of canonical_form on any wfs state with one open leg per node "
               "and after move_orthogonalization_center (C04_canonical_form_shortcuts, C04_move_center_shortcuts; the only further hypotheses: offsets of the conjugate copy)"),
+        # [ext-C04T]
+        ("F", "VALUE of the three-layer diagram <psi|H|psi> (Contr/ThreeLayerValue*.v), over any commutative semiring: for every wfs state, every wfs operator store on the same "
+              "tree with independent child orders and (output, input) legs last (wf_three / three_ok), separated wire ranges (state < operator < woff <= conjugate copy) and any "
+              "world reading the three atom families on their own wires, the model of expectation_value(state, ttno) succeeds with a closed diagram whose gvalue is the fused flat "
+              "form three_flat = SUM over the three copies of every edge wire and one index per glued physical pair of PROD over the nodes of (ket tensor)(operator tensor)"
+              "(conjugate ket tensor) (C04_ttno_expectation_value_flat, _flat_world with the stores' own atom tables; fusion lemma C04_fuse_items); the pairing hypothesis wf_three follows from the two "
+              "store invariants, one / two open legs per node, same parents and children up to order (C04_wf_three_of_wf, C04_ttno_expectation_value_flat_wf); corollary: same node data in "
+              "ANY child orders of state / conjugate copy / operator => same value (C04_ttno_expectation_child_orders); integer instance with non-symmetric operator tensors "
+              "evaluated on both sides (C04_ttno_flat_example)"),
+        # [/ext-C04T]
         ("I", "per explored tp instance: canon_hyp (wfsb, iso_check, one open leg per node, plain off-centre tensors, offsets: the structural hypotheses of the bridge theorems) "
               "on the MODEL's canonical form of the state at the centre the implementation used, by vm_compute (canon_case)"),
         # [/bridge-C04]
